@@ -96,6 +96,15 @@ fn run(input: RunInput) -> ScenFuture {
                 }
             });
         }
+        // known-peer entries must not change what an explicit dial does (affinity governs inbound
+        // admission and background dialing only): the caller may know any party under any affinity,
+        // the listeners know the caller as High or Allowed
+        let parties = [(e_id, Some(addr(2))), (o.peer_id, Some(o.addr)), (m_id, Some(chain_ep.addr)), (public_key(&k_imp), Some(imp.addr))];
+        let kp = w.vary_known_peers(&c, &parties, false);
+        w.vary_known_peers(&o, &[(c.peer_id, Some(c.addr))], true);
+        if let Some(e) = e.as_ref() {
+            w.vary_known_peers(e, &[(c.peer_id, Some(c.addr))], true);
+        }
         let mut sub_c = Subscription::new(&c.net).unwrap();
         let mut sub_o = Subscription::new(&o.net).unwrap();
         let mut sub_e = e.as_ref().and_then(|e| Subscription::new(&e.net));
@@ -215,6 +224,7 @@ fn run(input: RunInput) -> ScenFuture {
         for p in c.net.peers() {
             w.check(Some(p) == e_online.then_some(e_id) || p == o.peer_id || p == m_id || p == c.peer_id, "listed-identity-nobody-holds", w.pname(&p), || "caller lists an identity that no reachable endpoint holds".into());
         }
+        w.sample("known_peers_of_caller", json!(kp.iter().map(|(p, a)| format!("{}={a}", w.pname(p))).collect::<Vec<_>>()));
         w.sample("calls", json!({"e_online": e_online, "lossy": lossy, "calls": results.iter().map(|(i, r, _)| json!({"target": format!("{:?}", plan[*i].0), "expect": plan[*i].1.map(|p| w.pname(&p)), "result": r.as_ref().map(|p| w.pname(p)).map_err(|e| e.chars().take(60).collect::<String>())})).collect::<Vec<_>>()}));
         let out = w.finish();
         drop((c, e, o, imp, chain_ep));
